@@ -3,10 +3,118 @@
 -/
 import MemchrModel.Base.Lemmas
 import MemchrModel.Model.IsEqual
+import MemchrModel.Proofs.IsEqualLemmas
 
 namespace Memchr.IsEqual
 
 open Memchr
+
+/-- the 2- and 1-byte tail of `is_equal_raw` (`n < 4`) -/
+theorem tail_correct (mx my : Mem) (x y n : Nat) (c : Ctr) (hn : n < 4)
+    (hx1 : mx.base ≤ x) (hx2 : x + n ≤ mx.base + mx.bytes.size)
+    (hy1 : my.base ≤ y) (hy2 : y + n ≤ my.base + my.bytes.size) :
+    ∃ c', tail mx my x y n c = .ok (decide (mx.window x n = my.window y n)) c' ∧
+      c'.steps ≤ c.steps + 2 := by
+  unfold tail
+  by_cases h2 : n ≥ 2
+  · simp only [h2, if_true, M.bind_run, tick_run]
+    rw [Mem.loadU_ok mx x 2 _ hx1 (by omega)]
+    simp only []
+    rw [Mem.loadU_ok my y 2 _ hy1 (by omega)]
+    simp only []
+    have hsplit := Mem.window_add_eq_iff mx my x y 2 (n - 2)
+    rw [show 2 + (n - 2) = n by omega] at hsplit
+    by_cases hne : mx.window x 2 = my.window y 2
+    · simp only [hne, bne_self_eq_false, Bool.false_eq_true, if_false]
+      rw [Mem.padd_ok mx _ x 2 hx1 (by omega), Mem.padd_ok my _ y 2 hy1 (by omega),
+        csub_of_le _ h2]
+      simp only [M.bind_run, M.pure_run]
+      by_cases h3 : n - 2 > 0
+      · have hn3 : n - 2 = 1 := by omega
+        simp only [h3, if_true, M.bind_run, tick_run]
+        rw [Mem.read_ok mx (x + 2) _ (by omega) (by omega)]
+        simp only []
+        rw [Mem.read_ok my (y + 2) _ (by omega) (by omega)]
+        simp only []
+        rw [hn3, Mem.window_one, Mem.window_one] at hsplit
+        by_cases hb : mx.byteAt (x + 2) = my.byteAt (y + 2)
+        · have : mx.window x n = my.window y n := hsplit.mpr ⟨hne, by rw [hb]⟩
+          simp only [hb, bne_self_eq_false, Bool.false_eq_true, if_false, M.pure_run, this,
+            decide_true]
+          exact ⟨_, rfl, by simp⟩
+        · have : ¬ mx.window x n = my.window y n := fun h => hb (by
+            have := (hsplit.mp h).2
+            exact List.head_eq_of_cons_eq this)
+          have hb' : (mx.byteAt (x + 2) != my.byteAt (y + 2)) = true := by simpa using hb
+          simp only [hb', if_true, M.pure_run, this, decide_false]
+          exact ⟨_, rfl, by simp⟩
+      · have hn3 : n - 2 = 0 := by omega
+        rw [hn3] at hsplit
+        have : mx.window x n = my.window y n := hsplit.mpr ⟨hne, rfl⟩
+        simp only [h3, if_false, M.pure_run, this, decide_true]
+        exact ⟨_, rfl, by simp⟩
+    · have : ¬ mx.window x n = my.window y n := fun h => hne (hsplit.mp h).1
+      have hne' : (mx.window x 2 != my.window y 2) = true := by simpa using hne
+      simp only [hne', if_true, M.pure_run, this, decide_false]
+      exact ⟨_, rfl, by simp⟩
+  · simp only [h2, if_false]
+    by_cases h1 : n > 0
+    · have hn1 : n = 1 := by omega
+      subst hn1
+      simp only [h1, if_true, M.bind_run, tick_run]
+      rw [Mem.read_ok mx x _ hx1 (by omega)]
+      simp only []
+      rw [Mem.read_ok my y _ hy1 (by omega)]
+      simp only [Mem.window_one]
+      by_cases hb : mx.byteAt x = my.byteAt y
+      · simp only [hb, bne_self_eq_false, Bool.false_eq_true, if_false, M.pure_run,
+          decide_true]
+        exact ⟨_, rfl, by simp⟩
+      · have hb' : (mx.byteAt x != my.byteAt y) = true := by simpa using hb
+        have : ¬ [mx.byteAt x] = [my.byteAt y] := fun h => hb (List.head_eq_of_cons_eq h)
+        simp only [hb', if_true, M.pure_run, this, decide_false]
+        exact ⟨_, rfl, by simp⟩
+    · have hn0 : n = 0 := by omega
+      subst hn0
+      simp only [h1, if_false, M.pure_run, Mem.window_zero, decide_true]
+      exact ⟨_, rfl, by simp⟩
+
+theorem loop4_correct (mx my : Mem) (x y n : Nat) (c : Ctr)
+    (hx1 : mx.base ≤ x) (hx2 : x + n ≤ mx.base + mx.bytes.size)
+    (hy1 : my.base ≤ y) (hy2 : y + n ≤ my.base + my.bytes.size) :
+    ∃ c', loop4 mx my x y n c = .ok (decide (mx.window x n = my.window y n)) c' ∧
+      c'.steps ≤ c.steps + n / 4 + 2 := by
+  fun_induction loop4 mx my x y n generalizing c with
+  | case1 x y n h ih =>
+    simp only [M.bind_run, tick_run]
+    rw [Mem.loadU_ok mx x 4 _ hx1 (by omega)]
+    simp only []
+    rw [Mem.loadU_ok my y 4 _ hy1 (by omega)]
+    simp only []
+    have hsplit := Mem.window_add_eq_iff mx my x y 4 (n - 4)
+    rw [show 4 + (n - 4) = n by omega] at hsplit
+    by_cases hne : mx.window x 4 = my.window y 4
+    · simp only [hne, bne_self_eq_false, Bool.false_eq_true, if_false]
+      rw [Mem.padd_ok mx _ x 4 hx1 (by omega), Mem.padd_ok my _ y 4 hy1 (by omega)]
+      simp only [M.bind_run, M.pure_run]
+      obtain ⟨c', e, hs⟩ := ih
+        { steps := c.steps + 1,
+          loads := ⟨my.region, y - my.base, 4, false⟩ ::
+            ⟨mx.region, x - mx.base, 4, false⟩ :: c.loads }
+        (by omega) (by omega) (by omega) (by omega)
+      refine ⟨c', ?_, ?_⟩
+      · rw [e]
+        congr 1
+        simp only [hsplit, hne, true_and]
+      · simp only at hs
+        omega
+    · have : ¬ mx.window x n = my.window y n := fun h => hne (hsplit.mp h).1
+      have hne' : (mx.window x 4 != my.window y 4) = true := by simpa using hne
+      simp only [hne', if_true, M.pure_run, this, decide_false]
+      exact ⟨_, rfl, by simp; omega⟩
+  | case2 x y n h =>
+    obtain ⟨c', e, hs⟩ := tail_correct mx my x y n c (by omega) hx1 hx2 hy1 hy2
+    exact ⟨c', e, by omega⟩
 
 /-- `is_equal_raw(x, y, n)` on two readable ranges returns whether the ranges hold the same
 bytes; every load is in range. It costs at most `n / 4 + 2` steps. -/
@@ -14,7 +122,102 @@ theorem isEqualRaw_correct (mx my : Mem) (x y n : Nat) (c : Ctr)
     (hx1 : mx.base ≤ x) (hx2 : x + n ≤ mx.base + mx.bytes.size)
     (hy1 : my.base ≤ y) (hy2 : y + n ≤ my.base + my.bytes.size) :
     ∃ c', isEqualRaw mx my x y n c = .ok (decide (mx.window x n = my.window y n)) c' ∧
-      c'.steps ≤ c.steps + n / 4 + 2 := by
-  sorry
+      c'.steps ≤ c.steps + n / 4 + 2 :=
+  loop4_correct mx my x y n c hx1 hx2 hy1 hy2
+
+example : ∃ c', isEqualRaw ⟨0, 100, #[1, 2, 3, 4, 5, 6, 7]⟩ ⟨1, 200, #[9, 2, 3, 4, 5, 6, 7, 8]⟩
+    101 201 6 {} = .ok true c' ∧ c'.steps ≤ 3 := by
+  obtain ⟨c', h, hs⟩ := isEqualRaw_correct ⟨0, 100, #[1, 2, 3, 4, 5, 6, 7]⟩
+    ⟨1, 200, #[9, 2, 3, 4, 5, 6, 7, 8]⟩ 101 201 6 {} (by decide) (by decide) (by decide)
+    (by decide)
+  exact ⟨c', by rw [h]; rfl, by simpa using hs⟩
+
+/-! ### slice-level functions -/
+
+/-- `is_equal(x, y)` is slice equality, at most `x.len / 4 + 2` steps -/
+theorem isEqual_correct (x y : Slice) (c : Ctr) (hx : x.Valid) (hy : y.Valid) :
+    ∃ c', isEqual x y c = .ok (decide (x.toList = y.toList)) c' ∧
+      c'.steps ≤ c.steps + x.len / 4 + 2 := by
+  unfold isEqual
+  by_cases hl : x.len = y.len
+  · have hl' : (x.len != y.len) = false := by simpa using hl
+    simp only [hl', Bool.false_eq_true, if_false]
+    obtain ⟨c', e, hs⟩ := isEqualRaw_correct x.mem y.mem x.ptr y.ptr x.len c hx.ptr_le
+      hx.endPtr_le hy.ptr_le (by rw [hl]; exact hy.endPtr_le)
+    refine ⟨c', ?_, hs⟩
+    rw [e, Slice.toList_eq_window x, Slice.toList_eq_window y, hl]
+  · have hl' : (x.len != y.len) = true := by simpa using hl
+    have : ¬ x.toList = y.toList := fun h => hl (by
+      have := congrArg List.length h
+      simpa using this)
+    simp only [hl', if_true, M.pure_run, this, decide_false]
+    exact ⟨c, rfl, by omega⟩
+
+theorem take_toList (h : Slice) (k : Nat) (hk : k ≤ h.len) :
+    (⟨h.mem, h.off, k⟩ : Slice).toList = h.toList.take k := by
+  simp only [Slice.toList, ← List.map_take, List.take_range, Nat.min_eq_left hk]
+  rfl
+
+theorem drop_toList (h : Slice) (a : Nat) (_ha : a ≤ h.len) :
+    (⟨h.mem, h.off + a, h.len - a⟩ : Slice).toList = h.toList.drop a := by
+  apply List.ext_getElem
+  · simp
+  · intro i h1 h2
+    simp only [Slice.toList, List.getElem_map, List.getElem_range, List.getElem_drop,
+      Slice.getD]
+    rw [Nat.add_assoc]
+
+/-- `is_prefix(haystack, needle)` decides `needle <+: haystack` (`List.IsPrefix`) -/
+theorem isPrefix_correct (h n : Slice) (c : Ctr) (hh : h.Valid) (hn : n.Valid) :
+    ∃ c', isPrefix h n c = .ok (decide (n.toList <+: h.toList)) c' ∧
+      c'.steps ≤ c.steps + n.len / 4 + 2 := by
+  unfold isPrefix
+  by_cases hl : n.len ≤ h.len
+  · simp only [hl, if_true, Slice.take, M.bind_run, M.pure_run]
+    have hv : (⟨h.mem, h.off, n.len⟩ : Slice).Valid := by
+      unfold Slice.Valid at *; simp only; omega
+    obtain ⟨c', e, hs⟩ := isEqual_correct ⟨h.mem, h.off, n.len⟩ n c hv hn
+    refine ⟨c', ?_, hs⟩
+    rw [e, take_toList h n.len hl]
+    congr 1
+    apply decide_eq_decide.mpr
+    rw [List.prefix_iff_eq_take, Slice.toList_length]
+    exact ⟨fun h => h.symm, fun h => h.symm⟩
+  · have : ¬ n.toList <+: h.toList := fun hp => hl (by
+      have := hp.length_le
+      simpa using this)
+    simp only [hl, if_false, M.pure_run, this, decide_false]
+    exact ⟨c, rfl, by omega⟩
+
+/-- `is_suffix(haystack, needle)` decides `needle <:+ haystack` (`List.IsSuffix`) -/
+theorem isSuffix_correct (h n : Slice) (c : Ctr) (hh : h.Valid) (hn : n.Valid) :
+    ∃ c', isSuffix h n c = .ok (decide (n.toList <:+ h.toList)) c' ∧
+      c'.steps ≤ c.steps + n.len / 4 + 2 := by
+  unfold isSuffix
+  by_cases hl : n.len ≤ h.len
+  · simp only [hl, if_true, csub_of_le _ hl, Slice.drop, Nat.sub_le, M.bind_run,
+      M.pure_run]
+    have hv : (⟨h.mem, h.off + (h.len - n.len), h.len - (h.len - n.len)⟩ : Slice).Valid := by
+      unfold Slice.Valid at *; simp only; omega
+    obtain ⟨c', e, hs⟩ := isEqual_correct _ n c hv hn
+    refine ⟨c', ?_, ?_⟩
+    · rw [e, drop_toList h (h.len - n.len) (Nat.sub_le _ _)]
+      congr 1
+      apply decide_eq_decide.mpr
+      rw [List.suffix_iff_eq_drop, Slice.toList_length, Slice.toList_length]
+      exact ⟨fun h => h.symm, fun h => h.symm⟩
+    · simp only at hs
+      have : h.len - (h.len - n.len) = n.len := by omega
+      rw [this] at hs
+      exact hs
+  · have : ¬ n.toList <:+ h.toList := fun hp => hl (by
+      have := hp.length_le
+      simpa using this)
+    simp only [hl, if_false, M.pure_run, this, decide_false]
+    exact ⟨c, rfl, by omega⟩
+
+example : (⟨⟨0, 64, #[0, 1, 2, 3, 4, 5, 6, 7]⟩, 1, 6⟩ : Slice).Valid ∧
+    (⟨⟨1, 8, #[1, 2, 3]⟩, 0, 3⟩ : Slice).Valid := by
+  constructor <;> (unfold Slice.Valid; decide)
 
 end Memchr.IsEqual
